@@ -135,11 +135,12 @@ class SimTime:
 class _Rec:
     """A sink or a source with a stable identity; several handle shapes."""
 
-    def __init__(self, run, kind, hid, shape):
+    def __init__(self, run, kind, hid, shape, values="unique"):
         self.run = run
         self.kind = kind
         self.hid = hid
         self.shape = shape
+        self.values = values     # sources: "unique" (a fresh token per call), "const" (always c<hid>), "shared" (always "K")
         self.n = 0
         self._owner_ref = None
         if shape == "func":
@@ -161,7 +162,9 @@ class _Rec:
             self.run.reenter(self.hid)
             return None
         self.n += 1
-        v = "s%d-%d" % (self.hid, self.n)
+        # a sensor that reports the same reading every time, or two sensors that report the same reading, are sources like
+        # any other: "each source's value once" is a statement about sources, not about distinct values
+        v = {"const": "c%d" % self.hid, "shared": "K"}.get(self.values) or "s%d-%d" % (self.hid, self.n)
         self.run.on_source(self.hid, v)
         return v
 
@@ -241,7 +244,7 @@ class _Hub:
 
 class _Ctx:
     __slots__ = ("recvs", "deliv", "srcs", "src_deliv", "lost", "mangled", "src_targets", "src_hid", "src_seen",
-                 "nested_sends", "discarded")
+                 "nested_sends", "discarded", "src_prod")
 
     def __init__(self):
         self.recvs = []      # (hub, ep, pos, value or None)
@@ -253,7 +256,8 @@ class _Ctx:
         self.nested_sends = []   # (hub, endpoint, token) sent by a re-entrant sink
         self.discarded = []  # (hub, endpoint, [datagrams that had arrived and were thrown away with the socket])
         self.src_targets = {}    # hid -> set of (hub, endpoint) the source is registered on (model, at step start)
-        self.src_hid = {}        # value produced by a source during this call -> hid
+        self.src_hid = {}        # value produced by a source during this call -> hid (the last one that produced it)
+        self.src_prod = {}       # hid -> Counter(value): what each source produced during this call
         self.src_seen = set()    # (hub, endpoint, value) already booked as a source delivery
 
     def add_delivery(self, d):
@@ -322,7 +326,8 @@ class RouterRun:
         shapes_k = cfg.get("sink_shapes", ["func", "method", "partial"])
         shapes_s = cfg.get("source_shapes", ["func", "method", "partial"])
         self.sink_recs = [_Rec(self, "sink", i, shapes_k[i % len(shapes_k)]) for i in range(3)]
-        self.source_recs = [_Rec(self, "source", i, shapes_s[i % len(shapes_s)]) for i in range(3)]
+        vals_s = cfg.get("source_values", ["unique"] * 3)
+        self.source_recs = [_Rec(self, "source", i, shapes_s[i % len(shapes_s)], vals_s[i % len(vals_s)]) for i in range(3)]
 
     # ---- backend (overridden by the real-socket fidelity run) ---------------------
     def _make_net(self, cfg):
@@ -461,6 +466,7 @@ class RouterRun:
         self.log.add("source", hid, v)
         self.ctx.srcs.append((hid, v))
         self.ctx.src_hid[v] = hid
+        self.ctx.src_prod.setdefault(hid, Counter())[v] += 1
 
     # ---- helpers -------------------------------------------------------------
     def _handle(self, recs, hid):
@@ -727,15 +733,23 @@ class RouterRun:
         rest = obs_all - pred
         src_rest = Counter()
         extra = Counter()
+        src_attr = {}       # delivery -> [(hid, count)]: which sources account for it
         for d, c in rest.items():
             val = d[3][0] if d[0] == "wire" else d[3]
-            hid = ctx.src_hid.get(val) if (op == "spin" and d[0] != "sink") else None
-            if hid is not None and (d[1], d[2]) in ctx.src_targets.get(hid, ()):
-                src_rest[d] += 1
-                if c > 1:
-                    extra[d] += c - 1
-            else:
-                extra[d] += c
+            # every source registered on this endpoint that produced this value during the call accounts for as many
+            # deliveries of it as it produced (values need not be unique: constant and equal sources exist)
+            allowed = 0
+            if op == "spin" and d[0] != "sink":
+                for hid, prod in ctx.src_prod.items():
+                    if (d[1], d[2]) in ctx.src_targets.get(hid, ()) and prod.get(val):
+                        take = min(prod[val], int(st.get("k", 1)), c - allowed)     # one value per registration per iteration
+                        if take > 0:
+                            src_attr.setdefault(d, []).append((hid, take))
+                            allowed += take
+            if allowed:
+                src_rest[d] += allowed
+            if c > allowed:
+                extra[d] += c - allowed
         obs = pred - missing + extra       # "observed" as far as the fan-out clauses are concerned
         ctx.src_deliv = list(src_rest.elements())
 
@@ -778,12 +792,13 @@ class RouterRun:
                         pred_src[("mem" if hub.kinds[n]["kind"] == "mem" else "wire", hi, n, hid)] += k
             obs_calls = Counter(h for h, _ in ctx.srcs)
             obs_by = Counter()
-            for d in ctx.src_deliv:
+            for d in set(ctx.src_deliv):
                 val = d[3][0] if d[0] == "wire" else d[3]
                 if d[0] == "wire" and d[3][1] != (HUB_IP, hub.kinds[d[2]]["tx"]):
                     raise Violation("R-spin-source", "source value %r for endpoint %s was sent to %r instead of %r" % (
                         val, d[2], d[3][1], (HUB_IP, hub.kinds[d[2]]["tx"])), sig)
-                obs_by[(d[0], d[1], d[2], ctx.src_hid[val])] += 1
+                for hid_, cnt_ in src_attr.get(d, ()):
+                    obs_by[(d[0], d[1], d[2], hid_)] += cnt_
             if exc is None or not last_nodata:
                 # each source at least once per iteration and at most once per registration per iteration (one value
                 # may be shared by the endpoints a handle is registered on); every registration gets exactly one value
@@ -999,7 +1014,10 @@ def gen_trace(seed):
     cfg = {"hubs": hubs, "peers": peers,
            "inbox_cap": rc.choice([1, 2, 64, 64, 64]),
            "sink_shapes": [rc.choice(["func", "method", "partial", "weakowner"]) for _ in range(3)],
-           "source_shapes": [rc.choice(["func", "method", "partial", "weakowner"]) for _ in range(3)]}
+           "source_shapes": [rc.choice(["func", "method", "partial", "weakowner"]) for _ in range(3)],
+           # what the sources report: fresh tokens, the same reading every time, or the same reading as each other
+           "source_values": rc.choice([["unique"] * 3, ["unique"] * 3, ["unique", "const", "shared"], ["shared"] * 3,
+                                       ["const", "const", "unique"], ["shared", "shared", "unique"]])}
     if rc.random() < 0.25:
         # one sink that uses the hub while it is being called (polls or sends on some endpoint of hub 0)
         re = [None, None, None]
